@@ -96,6 +96,10 @@ impl<'g> SentenceGen<'g> {
     }
 
     fn expand(&self, r: &'g Value, t: &mut Tape, budget: &mut i64, out: &mut Vec<Tok>, depth: u32) {
+        if depth > 400 || out.len() > 200_000 {
+            // a grammar without a terminating derivation on this path
+            return;
+        }
         let ty = r["type"].as_str().unwrap_or("");
         match ty {
             "BLANK" => {}
